@@ -40,18 +40,21 @@ def allZero (l : List Byte) : Bool := l.all (· == 0#8)
 
 /-- decode an SPI journal: every access must be one chip-select window of the
     BMA400 SPI protocol (property C13); `none` otherwise.  A failed data
-    operation must still be followed by the chip-select release (C20). -/
+    operation must still be followed by the chip-select release (C20).  A chip-select
+    operation that FAILED leaves the line where it was: after a failed release the window is
+    still open and after a failed assert none was opened, so nothing may follow in that call
+    (bytes clocked later would extend the old window / go out with chip-select high). -/
 def decodeSpi : List JEntry → Option (List Acc)
   | [] => some []
   | ⟨.delay ms, _⟩ :: r => (decodeSpi r).map (Acc.delay ms :: ·)
-  | ⟨.csLow, false⟩ :: r => (decodeSpi r).map (Acc.lowFailed :: ·)
+  | ⟨.csLow, false⟩ :: r => if r.isEmpty then some [Acc.lowFailed] else none
   | ⟨.csLow, true⟩ :: ⟨.spiWrite [a, v], ok⟩ :: ⟨.csHigh, okh⟩ :: r =>
-      if (a &&& 0x80#8) == 0#8 then (decodeSpi r).map (Acc.wr a.toNat v (ok && okh) :: ·) else none
-  | ⟨.csLow, true⟩ :: ⟨.spiTransfer [a, d], false⟩ :: ⟨.csHigh, _⟩ :: r =>
-      if (a &&& 0x80#8) != 0#8 && d == 0#8 then
+      if (a &&& 0x80#8) == 0#8 && (okh || r.isEmpty) then (decodeSpi r).map (Acc.wr a.toNat v (ok && okh) :: ·) else none
+  | ⟨.csLow, true⟩ :: ⟨.spiTransfer [a, d], false⟩ :: ⟨.csHigh, okh⟩ :: r =>
+      if (a &&& 0x80#8) != 0#8 && d == 0#8 && (okh || r.isEmpty) then
         (decodeSpi r).map (Acc.rd (a &&& 0x7F#8).toNat 0 false :: ·) else none
   | ⟨.csLow, true⟩ :: ⟨.spiTransfer [a, d], true⟩ :: ⟨.spiTransfer buf, ok⟩ :: ⟨.csHigh, okh⟩ :: r =>
-      if (a &&& 0x80#8) != 0#8 && d == 0#8 then
+      if (a &&& 0x80#8) != 0#8 && d == 0#8 && (okh || r.isEmpty) then
         (decodeSpi r).map (Acc.rd (a &&& 0x7F#8).toNat buf.length (ok && okh) :: ·) else none
   | _ => none
 
